@@ -29,6 +29,11 @@ pub use hashmap::HashMap;
 
 pub type Tid = usize;
 
+/// tags of the scheduling points that precede a simulated load / store (not logged themselves:
+/// the Load / Store event follows unless the thread is killed at the point)
+pub(crate) static TAG_LOAD: &str = "load";
+pub(crate) static TAG_STORE: &str = "store";
+
 /// Payload used to unwind a simulated thread whose process has been killed.
 pub struct Killed;
 /// Payload of an injected worker failure (fault_point).
@@ -346,6 +351,29 @@ fn tag_hash(t: &str) -> u64 {
     h
 }
 
+thread_local! {
+    static TAG_CACHE: RefCell<Vec<(usize, usize, u64)>> = const { RefCell::new(Vec::new()) };
+}
+
+/// `tag_hash` memoised by the address of the (static) string.
+fn tag_hash_static(t: &'static str) -> u64 {
+    if t.is_empty() {
+        return 0xcbf29ce484222325u64;
+    }
+    TAG_CACHE.with(|c| {
+        let mut c = c.borrow_mut();
+        let key = (t.as_ptr() as usize, t.len());
+        if let Some(e) = c.iter().find(|e| e.0 == key.0 && e.1 == key.1) {
+            return e.2;
+        }
+        let h = tag_hash(t);
+        if c.len() < 64 {
+            c.push((key.0, key.1, h));
+        }
+        h
+    })
+}
+
 pub fn splitmix(x: &mut u64) -> u64 {
     *x = x.wrapping_add(0x9E3779B97F4A7C15);
     let mut z = *x;
@@ -409,7 +437,7 @@ impl State {
 
     pub(crate) fn log(&mut self, tid: Tid, kind: EvKind, tag: &'static str, a: u64, b: u64, c: u64) {
         let ev = Event { step: self.steps, at: self.now, tid: tid as u32, kind, tag, a, b, c };
-        let th = tag_hash(tag);
+        let th = tag_hash_static(tag);
         for x in [tid as u64, kind as u64, th, a, b, c, self.now as u64] {
             fnv(&mut self.hash, x);
         }
@@ -723,7 +751,9 @@ pub(crate) fn yield_point(kind: EvKind, tag: &'static str, a: u64) -> bool {
         s.log(me, EvKind::Budget, "", 0, 0, 0);
         s.begin_shutdown(None);
     }
-    s.log(me, kind, tag, a, 0, 0);
+    if !(kind == EvKind::Point && (std::ptr::eq(tag, TAG_LOAD) || std::ptr::eq(tag, TAG_STORE))) {
+        s.log(me, kind, tag, a, 0, 0);
+    }
     if let Sched::Pct { .. } = s.cfg.sched {
         let st = s.steps;
         if s.pct_changes.iter().any(|&c| c == st) {
@@ -1309,17 +1339,23 @@ pub fn run(spec: RunSpec) -> RunReport {
             None => s.all_done = true,
         }
     }
+    // Watchdog: a run is hung when its step counter has not advanced for `spec.watchdog` of wall
+    // time (a thread spinning without touching shared state). Slow progress — e.g. on an
+    // oversubscribed machine — is not a hang; the total work of a run is bounded by `max_steps`.
     let mut hung = false;
     {
-        let deadline = std::time::Instant::now() + spec.watchdog;
+        let mut last_steps = 0u64;
+        let mut last_change = std::time::Instant::now();
         let mut s = sh.lock();
         while !s.all_done {
-            let left = deadline.saturating_duration_since(std::time::Instant::now());
-            if left.is_zero() {
+            if s.steps != last_steps {
+                last_steps = s.steps;
+                last_change = std::time::Instant::now();
+            } else if last_change.elapsed() > spec.watchdog {
                 hung = true;
                 break;
             }
-            let (g, _) = sh.ctl.wait_timeout(s, left).unwrap_or_else(|e| e.into_inner());
+            let (g, _) = sh.ctl.wait_timeout(s, std::time::Duration::from_millis(500)).unwrap_or_else(|e| e.into_inner());
             s = g;
         }
     }
